@@ -58,7 +58,7 @@ func (PoolH) Prepare(t *testing.T, c *hx.Case) {
 	}
 }
 
-var txKinds = []string{"valid", "valid", "valid", "child", "child", "child", "double-low", "double-high", "double-high", "orphan", "orphan-parent", "double-and-child", "double-and-child", "just-mature", "just-mature",
+var txKinds = []string{"valid", "valid", "valid", "child", "child", "child", "double-low", "double-high", "double-high", "orphan", "orphan-parent", "double-and-child", "double-and-child", "just-mature", "just-mature", "just-final", "just-final",
 	"badsig", "overspend", "immature", "dup", "dupinput", "nonfinal", "local", "trusted"}
 
 func (PoolH) Gen(prop string, seed uint64, tier string) *hx.Case {
@@ -144,6 +144,7 @@ type poolRun struct {
 	mined   map[[32]byte]bool       // txids on the active chain (maintained from the model tip)
 	tipNode *ledger.Node
 	forkCnt uint32
+	lowTime bool      // assemble() stamps blocks with the earliest time allowed
 	qNext   bool      // submit() queues instead of handling
 	queue   []*btc.Tx // wanted, pending, not yet handled by the main thread
 }
@@ -389,6 +390,23 @@ func (p *poolRun) doTx(o *PoolOp) {
 		t := p.m.MakeTx(height, ins, 1, feeFor(sum(ins)), -1, ledger.COk)
 		if p.submit(t, path) {
 			p.out.Probe("spend_of_just_matured_coinbase_accepted", 1)
+		}
+	case "just-final":
+		// a time lock that the next block just satisfies (and a block after a reorganisation with earlier time stamps may not)
+		ins := p.pickCoins(r, 1, false, false)
+		if len(ins) == 0 {
+			return
+		}
+		t := p.m.MakeTx(height, ins, 1, feeFor(sum(ins)), -1, ledger.COk)
+		t.Lock = p.model.MTP() - 1 - uint32(r.Intn(900))
+		t.In[0].Seq = 0xfffffffd
+		var sp []ledger.Coin
+		for _, c := range ins {
+			sp = append(sp, c.Coin)
+		}
+		p.m.SignAll(t, sp, -1, ledger.COk)
+		if p.submit(t, path) {
+			p.out.Probe("just_final_time_lock_accepted", 1)
 		}
 	case "orphan":
 		ins := p.pickCoins(r, 1, false, false)
@@ -653,7 +671,7 @@ func (p *poolRun) assemble(txs []*ledger.Tx, label string) *ledger.Block {
 	b.H.Ver = 0x20000000
 	b.H.Prev = parent.Hash
 	b.H.Time = parent.Time + 600
-	if mtp := parent.MTP(); b.H.Time <= mtp {
+	if mtp := parent.MTP(); b.H.Time <= mtp || p.lowTime {
 		b.H.Time = mtp + 1
 	}
 	b.H.Bits = p.l.ExpectedBits(parent, b.H.Time)
@@ -746,7 +764,15 @@ func (p *poolRun) doUndo(o *PoolOp) {
 		return
 	}
 	old := p.model
-	// a competing branch of d+1 coinbase-only blocks
+	// a competing branch of d+1 coinbase-only blocks (sometimes stamped as early as allowed: the median time goes back)
+	p.lowTime = r.Chance(0.4)
+	defer func() { p.lowTime = false }()
+	oldMTP := p.model.MTP()
+	defer func() {
+		if p.model != old && p.model.MTP() < oldMTP {
+			p.out.Probe("median_time_went_back_in_reorg", 1)
+		}
+	}()
 	cur := anc
 	saved := p.model
 	for i := uint32(0); i <= d; i++ {
@@ -808,6 +834,10 @@ func (p *poolRun) checkPool(when string) {
 		}
 		if onChain[id] {
 			p.viol("pool.duplicates-chain", "%s: pooled transaction %s is already part of the active chain", when, hs(id))
+			return
+		}
+		if !ledger.IsFinal(lt, p.model.Height+1, p.model.MTP()) {
+			p.viol("listing.not-minable", "%s: pooled transaction %s (lock time %d, sequence %#x) is not final for the next block (height %d, median time past %d): a block assembled from the listing is invalid", when, hs(id), lt.Lock, lt.In[0].Seq, p.model.Height+1, p.model.MTP())
 			return
 		}
 		var in uint64
